@@ -18,7 +18,9 @@ pub struct EdgeTraversal {
 
 impl EdgeTraversal {
     pub fn total_cost(&self) -> Cost {
-        self.access_cost + self.traversal_cost
+        // the two shares are stored separately; when they differ by many orders of magnitude
+        // their floating point sum can round to zero, so the floor is enforced on the sum too
+        Cost::enforce_strictly_positive(self.access_cost + self.traversal_cost)
     }
 }
 
